@@ -196,6 +196,35 @@ def decode_row(mode: int, n: int) -> str:
     return _decode(mode, n)
 
 
+def decode_row_leading_space(mode: int, lead: int, n: int, odd: bool) -> str:
+    """
+    pre: 0 <= mode < 3 and 1 <= lead <= 2 and 14 <= n <= 16
+    post: _ == ""
+    """
+    # a row that begins with one or two spaces (rows are often indented with spaces for centring): the spaces are
+    # screen cells like any other - total = 2 + 2n (+1) characters
+    first = "2061" if lead == 1 else "2020"
+    words = first + " " + _words(n) + (" c180" if odd else "")
+    total = 2 + 2 * n + (1 if odd else 0)
+    if mode == 0:
+        body = "00:00:01:00\t9420 9470 " + words + " 942f\n\n00:00:05:00\t942c\n"
+    elif mode == 1:
+        body = "00:00:01:00\t9425 9470 " + words + " 94ad\n\n00:00:05:00\t9470 c162 94ad\n"
+    else:
+        body = "00:00:01:00\t9429 9470 " + words + "\n\n00:00:05:00\t9429 9470 c162\n"
+    try:
+        cs = SCCReader().read("Scenarist_SCC V1.0\n\n" + body)
+    except CaptionLineLengthError:
+        return "" if total > 32 else "spurious length error"
+    if total > 32:
+        return "long line returned silently"
+    for c in cs.get_captions("en-US"):
+        for ln in "".join(c.get_text_nodes()).split("\n"):
+            if len(ln) > 32:
+                return "long line in result"
+    return ""
+
+
 def _decode_pending(mode, n):
     # the row is still pending when the input ends (no erase / carriage return / further line after it)
     if mode == 0:
